@@ -202,6 +202,15 @@ structure St where
 
 def init : St := {}
 
+/-- `closeSent` of reader.go: this client has begun to write a CloseConnection (the flag is set just before the header
+is written, and never cleared) -/
+def closeSent (s : St) : Bool :=
+  s.written.any (fun w => w.f.typ == tCloseConnection) ||
+    (match s.wr with
+     | .writing f _ => f.typ == tCloseConnection
+     | .parked => true
+     | _ => false)
+
 inductive Act where
   | peerSend (f : Frame)
   | peerClose
@@ -408,7 +417,7 @@ def eff (s : St) : Act → St
     | f :: rest => { s with inbox := rest, received := s.received ++ [f], rd := .hdr f,
                             rcvClosed := s.rcvClosed || f.typ == tCloseConnectionResponse }
     | [] => s
-  | .rdEof => if s.rcvClosed then { s with rd := .eofWait }
+  | .rdEof => if s.rcvClosed && closeSent s then { s with rd := .eofWait }
     else { s with rd := .exited .fail, errs := s.errs ++ [.fail], broken := true }
   | .rdFail => { s with rd := .exited .fail, errs := s.errs ++ [.fail], broken := true }
   | .rdDispatch => match s.rd with
